@@ -1,7 +1,7 @@
 (** C14: the search functions are the count rule applied to the C06 pre-order. *)
 Require Import AT.Model.Base AT.Model.Rose AT.Model.Iter AT.Model.Search.
 Require Import AT.Spec.IterSpec AT.Spec.SearchSpec AT.Proofs.ListLemmas AT.Proofs.IterPre.
-Open Scope Z_scope.
+Local Open Scope Z_scope.
 
 Theorem findall_spec f stop ml lo hi t :
   findall f stop ml lo hi t = spec_findall f stop ml lo hi t.
